@@ -105,18 +105,21 @@ class Pipeline(_PayloadProcessor):
         self.stop_watch.start()  # existing pipeline timer start
 
         run_meta = self._run_metadata
-        result_payload = self.orchestrator.execute(
-            pipeline_spec=self.resolved_spec,
-            payload=payload,
-            transport=self.transport,
-            logger=self.logger,
-            trace=self.trace,
-            canonical_spec=self.canonical_spec,
-            run_metadata=run_meta,
-        )
+        try:
+            result_payload = self.orchestrator.execute(
+                pipeline_spec=self.resolved_spec,
+                payload=payload,
+                transport=self.transport,
+                logger=self.logger,
+                trace=self.trace,
+                canonical_spec=self.canonical_spec,
+                run_metadata=run_meta,
+            )
+        finally:
+            # Staged metadata belongs to this run only, also when it fails.
+            self._run_metadata = None
 
         self.nodes = self.orchestrator.last_nodes
-        self._run_metadata = None
 
         self.stop_watch.stop()  # existing pipeline timer stop
         self.logger.info("Pipeline execution complete.")
